@@ -17,7 +17,7 @@ Extraction "model.ml"
   step_pop run_chain fields_safe field_safe rep_ok
   arith_form arith_form_spec form_n form_sub
   code_postdec_fixed code_index_nullcheck code_range_guarded
-  rl_memset rl_memcpy rl_memcmp verify_range counted_good usp_because copy_or_deny copy_or_grant acc_good
+  rl_memset rl_memcpy rl_memcmp verify_range counted_good usp_because copy_or_deny copy_or_grant grant_or_copy deny_or_copy acc_good
   amap_init get_app_pointer_idx get_unused_index remove_app_ptr lookup_index astep arun
   ostep orun owner_at held live_tokens code_overwrite_releases
   world_init wstep wstep_spec wstep_gen wrun cb_owner_at reachable owned_keys code_move_assign_releases
